@@ -87,16 +87,21 @@ func c01Check(c *C01Case) (msg string, class string) {
 			fm[name] = []byte(in)
 			args = append(args, name)
 		}
-		for _, withO := range []bool{false, true} {
+		// (the tool's other modes, as its usage text lists them: -o, and the two that print the
+		// tokens / the syntax tree of the program and the selectors instead of running them)
+		for _, mode := range []string{"", "-o", "-dbg-ast", "-dbg-lex"} {
 			if !ok {
 				break
 			}
+			withO := mode == "-o"
 			a := args
 			if withO {
 				if len(c.Input) > 1 {
 					continue
 				}
 				a = append([]string{"-o", "-"}, args...)
+			} else if mode != "" {
+				a = append([]string{mode}, args...)
 			}
 			res, err := run.CLI(run.CLIOpts{Args: a, Files: fm})
 			if err != nil || res.TimedOut {
@@ -113,6 +118,9 @@ func c01Check(c *C01Case) (msg string, class string) {
 			}
 			if res.Exit == 1 && len(strings.TrimSpace(string(res.Stderr))) == 0 {
 				return "the binary exits with status 1 without a diagnostic", class
+			}
+			if mode != "" && !withO {
+				continue
 			}
 			if res.Exit == 0 && !withO && len(res.Stderr) != 0 {
 				return fmt.Sprintf("the binary exits with status 0 but wrote to stderr: %s", clip(string(res.Stderr))), class
